@@ -106,17 +106,28 @@ def mid_identity(mod):
         return Val(a.c)
 
     radii = []
+    hypots = []
 
     def f_atan2(y, x):
         y, x = (y if isinstance(y, Val) else Val(y)), (x if isinstance(x, Val) else Val(x))
-        r, s, c = fresh("r"), fresh("s"), fresh("c")
-        cons.extend([r > 0, r * r == x.t * x.t + y.t * y.t, s * r == y.t, c * r == x.t])
+        s, c = fresh("s"), fresh("c")
+        r = None
+        for (p, q2, h) in hypots:
+            # atan2 of the very two numbers whose hypot was already taken: its radius IS that hypot
+            if (z3.eq(p, x.t) and z3.eq(q2, y.t)) or (z3.eq(p, y.t) and z3.eq(q2, x.t)):
+                r = h
+                cons.append(h > 0)
+        if r is None:
+            r = fresh("r")
+            cons.extend([r > 0, r * r == x.t * x.t + y.t * y.t])
+        cons.extend([s * r == y.t, c * r == x.t])
         radii.append(r)
         return Ang(s, c)
 
     def f_hypot(a, b):
         h = fresh("h")
         cons.extend([h >= 0, h * h == a.t * a.t + b.t * b.t])
+        hypots.append((a.t, b.t, h))
         return Val(h)
 
     class P:
@@ -141,9 +152,11 @@ def mid_identity(mod):
     claims = []
     results = {}
     for r in radii:
+        if any(v[0] == "unsat" for v in results.values()):
+            break
         claim = z3.And(*[m * r == (x + y) for m, x, y in zip(M, A, B)])
         s = z3.Solver()
-        s.set("timeout", 120000)
+        s.set("timeout", 60000)
         s.add(*cons)
         s.add(z3.Not(claim))
         t0 = time.time()
@@ -156,9 +169,10 @@ def mid_identity(mod):
     return results, twin
 
 
-def mid_numeric_check(seed):
-    """Replay of a failed identity on the real compiled mid: is mid(a, b) the normalised sum?"""
-    from toasty._libtoasty import mid as cmid
+def mid_numeric_check(seed, cmid=None):
+    """Replay of a failed identity: is mid(a, b) the normalised sum?  (compiled mid by default, else the given one)"""
+    if cmid is None:
+        from toasty._libtoasty import mid as cmid
     rng = np.random.default_rng(seed)
     worst = 0.0
     for _ in range(4000):
@@ -411,9 +425,14 @@ def check(run):
     tot = sum(dt for _r, dt in results.values())
     if held:
         run.ob("mid-is-great-circle-midpoint", "unsat", "E4:nra", "unit vector of mid(a, b) times |A+B| equals A + B (radius %s; twin %s)" % (held[0], twin), queries=len(results) + 1, solver_s=tot)
-    elif any(r == "sat" for r, _dt in results.values()):
+    elif all(r == "sat" for r, _dt in results.values()):
         w = mid_numeric_check(run.seed)
-        if w > 1e-9:
+        w_src = mid_numeric_check(run.seed, mod.mid)
+        if w <= 1e-9 and w_src > 1e-9:
+            run.violation("mid-is-great-circle-midpoint", "_libtoasty.pyx:_mid:source-not-the-midpoint",
+                          "the _mid in toasty/_libtoasty.pyx is not the great-circle midpoint (decythonised source: max deviation %.3g); the compiled extension in this sandbox is stale (cannot be rebuilt: no Cython) and still computes midpoints" % w_src,
+                          "import sys\nsys.path.insert(0, %r)\nimport props.C04 as P\nfrom vlib import decy\nm, _ = decy.load()\nw = P.mid_numeric_check(0, m.mid)\nprint(w)\nsys.exit(1 if w > 1e-9 else 0)\n" % str(__import__("vlib.core").core.VERIF), "E4:nra")
+        elif w > 1e-9:
             run.violation("mid-is-great-circle-midpoint", "_libtoasty.pyx:_mid:not-the-midpoint", "mid(a, b) is not the normalised sum of the two unit vectors (compiled extension: max deviation %.3g)" % w,
                           "import sys\nsys.path.insert(0, %r)\nimport props.C04 as P\nw = P.mid_numeric_check(0)\nprint(w)\nsys.exit(1 if w > 1e-9 else 0)\n" % str(__import__("vlib.core").core.VERIF), "E4:nra")
         else:
